@@ -22,7 +22,7 @@ func init() {
 }
 
 func runC14(r *report.Run) {
-	r.SetRule("race-detector build, child process per run: 16 query workers (cache on, every stamped query kind, one query in six with a question type the DNS library has no name for, new ones all along the run) x a reloader walking through generations (every other run with a 1 ms reload timeout so that reloads time out while still running; full reloads to new directories/files, partial reloads after a real ApplyDiff on the primary / file replacement, failing reloads: missing path, unreadable, missing validation key) x a ReportBackendStats ticker x a WatchDBAndReload watcher with a ReloadChan consumer x (in part of the runs) a WatchControlDirAndReload watcher through which the successful reloads are requested by renaming reload/switchdb files into the control directory x shutdown while queries are parked after reader acquisition (verif hook) and resumed afterwards; plus the production wiring (NewFBDNSDB with a 1 s periodic reload) shut down while a reload is parked in progress and the next tick is already pending; on CDB, RocksDB v1 and v2; repeated. Oracle: zero race-detector reports (deduplicated by entry-point pair), no panic/fatal error, every worker completes its fixed operation count before a generous watchdog; a stand-still of the progress counters (queries, reloads, stats reports) for 20 s is examined structurally: a deadlock is reported only when in three goroutine dumps 2 s apart every goroutine inside the serving code is blocked acquiring a sync lock (at least a waiting writer and a waiting reader) or idle, none runs or sits in a system/cgo call, and the blocked stacks are identical. non-trivial = run in which queries and reloads really overlapped (measured: queries completed while a reload was in progress); distinct by (backend, repeat)")
+	r.SetRule("race-detector build, child process per run: 16 query workers (cache on, every stamped query kind, one query in six with a question type the DNS library has no name for, new ones all along the run) x a reloader walking through generations (every other run with a 1 ms reload timeout so that reloads time out while still running; full reloads to new directories/files, partial reloads after a real ApplyDiff on the primary / file replacement, failing reloads: missing path, unreadable, missing validation key) x a ReportBackendStats ticker x a WatchDBAndReload watcher with a ReloadChan consumer x (in part of the runs) a WatchControlDirAndReload watcher through which the successful reloads are requested by renaming reload/switchdb files into the control directory x (RocksDB, default reload timeout) a storm of several hundred back-to-back catch-ups with nothing to catch up under 8 query workers, followed by one partial reload on the idle server that has to complete (failure + goroutines blocked in the storage package at identical frames in two dumps = violation) x shutdown while queries are parked after reader acquisition (verif hook) and resumed afterwards; plus the production wiring (NewFBDNSDB with a 1 s periodic reload) shut down while a reload is parked in progress and the next tick is already pending; on CDB, RocksDB v1 and v2; repeated. Oracle: zero race-detector reports (deduplicated by entry-point pair), no panic/fatal error, every worker completes its fixed operation count before a generous watchdog; a stand-still of the progress counters (queries, reloads, stats reports) for 20 s is examined structurally: a deadlock is reported only when in three goroutine dumps 2 s apart every goroutine inside the serving code is blocked acquiring a sync lock (at least a waiting writer and a waiting reader) or idle, none runs or sits in a system/cgo call, and the blocked stacks are identical. non-trivial = run in which queries and reloads really overlapped (measured: queries completed while a reload was in progress); distinct by (backend, repeat)")
 	r.Assume("GORACE=halt_on_error=0 with log files; reports are counted from the logs, never from exit codes; a watchdog firing without a crash is inconclusive")
 	repeats := r.Pick(2, 5)
 	gens := r.Pick(25, 120)
@@ -87,13 +87,20 @@ func runC14(r *report.Run) {
 			r.Violation("", fmt.Sprintf("%s run %d: process died (exit %d) at step %q:\n%s", o.b.Name, o.rep, res.ExitCode, last, firstLines(res.Stderr, 14)), map[string]interface{}{"backend": o.b.Name, "journal_last": last})
 			continue
 		}
-		for _, k := range []string{"reload_timeouts", "queries", "reloads", "queries_during_reload", "stats_reports", "parked_at_shutdown", "watcher_reloads", "control_file_reloads", "control_files_not_consumed"} {
+		for _, k := range []string{"reload_timeouts", "queries", "reloads", "queries_during_reload", "stats_reports", "parked_at_shutdown", "watcher_reloads", "control_file_reloads", "control_files_not_consumed", "noop_partial_reloads_under_queries"} {
 			if n, ok := res.Summary[k].(float64); ok {
 				r.Count(k, int64(n))
 			}
 		}
 		if n, _ := res.Summary["queries_during_reload"].(float64); n > 0 {
 			r.Nontrivial(fmt.Sprintf("%s-%d", o.b.Name, o.rep))
+		}
+		if ie, _ := res.Summary["idle_reload_error"].(string); ie != "" {
+			if st, _ := res.Summary["stuck_storage_goroutines"].(string); st != "" {
+				r.Violation("", fmt.Sprintf("%s run %d: after %v back-to-back catch-ups under queries (storm ended by: %q) a partial reload on the IDLE server fails (%s) and goroutines are blocked inside the storage package at identical frames 2 s apart:\n%s", o.b.Name, o.rep, res.Summary["noop_partial_reloads_under_queries"], res.Summary["storm_error"], ie, firstLines(st, 30)), map[string]interface{}{"backend": o.b.Name, "stuck": st})
+			} else {
+				r.Inconclusive(fmt.Sprintf("%s run %d: partial reload on the idle server failed (%s) but no goroutine is stuck in the storage package", o.b.Name, o.rep, ie))
+			}
 		}
 		if p, _ := res.Summary["panics"].(float64); p > 0 {
 			r.Violation("", fmt.Sprintf("%s run %d: %v handler panics, first: %v", o.b.Name, o.rep, p, res.Summary["first_panic"]), map[string]interface{}{"backend": o.b.Name})
@@ -269,6 +276,56 @@ func c14Worker(args []string) int {
 	}
 	close(reloadDone)
 	wg.Wait()
+	// catch-up storm (RocksDB, runs with the default reload timeout): partial reloads that have nothing to catch up,
+	// back to back, while 8 workers query - every one switches the backend's shared iterator pool off and on under
+	// the queries. A reload error ends the storm; then the server is left idle and one more partial reload is made:
+	// on an idle, healthy server it has to complete. If it does not AND a goroutine sits blocked inside the storage
+	// package at identical frames in two dumps 2 s apart, something a query left behind is still waited for.
+	noopReloads, stormErr, idleErr, stuck := 0, "", "", ""
+	if b.Driver == "rocksdb" && opt.ReloadTimeout == 0 && ctrl == "" {
+		journal("%s catch-up storm", bname)
+		var stormStop int32
+		var swg sync.WaitGroup
+		for c := 0; c < 8; c++ {
+			swg.Add(1)
+			go func(c int) {
+				defer swg.Done()
+				for i := 0; atomic.LoadInt32(&stormStop) == 0; i++ {
+					func() {
+						defer func() {
+							if e := recover(); e != nil {
+								atomic.AddInt64(&panics, 1)
+								firstPanic.CompareAndSwap(nil, fmt.Sprint(e))
+							}
+						}()
+						l.query(300+c, stampQueries[(c+i)%len(stampQueries)], "s")
+					}()
+					atomic.AddInt64(&queries, 1)
+				}
+			}(c)
+		}
+		for i := 0; i < 400*gens/25+200; i++ {
+			if err := h.Reload(*dnsserver.NewPartialReloadSignal()); err != nil {
+				stormErr = err.Error()
+				break
+			}
+			noopReloads++
+			atomic.AddInt64(&reloadSteps, 1)
+		}
+		atomic.StoreInt32(&stormStop, 1)
+		swg.Wait()
+		journal("%s idle reload after the storm", bname)
+		if err := h.Reload(*dnsserver.NewPartialReloadSignal()); err != nil {
+			idleErr = err.Error()
+			a := storageGoroutines()
+			time.Sleep(2 * time.Second)
+			bb := storageGoroutines()
+			if len(a) > 0 && strings.Join(a, "\n") == strings.Join(bb, "\n") {
+				stuck = strings.Join(a, "\n\n")
+			}
+		}
+		atomic.AddInt64(&reloadSteps, 1)
+	}
 	// shutdown while queries are parked right after reader acquisition
 	journal("%s shutdown with parked queries", bname)
 	var parks []interface{ Release() }
@@ -308,7 +365,8 @@ func c14Worker(args []string) int {
 	fp, _ := firstPanic.Load().(string)
 	summary(map[string]interface{}{"queries": atomic.LoadInt64(&queries), "reloads": nreload, "queries_during_reload": atomic.LoadInt64(&during),
 		"stats_reports": atomic.LoadInt64(&statsReports), "reload_timeouts": timeouts, "parked_at_shutdown": parked, "watcher_reloads": atomic.LoadInt64(&watcherReloads),
-		"panics": atomic.LoadInt64(&panics), "first_panic": fp, "control_file_reloads": ctrlReloads, "control_files_not_consumed": ctrlStuck})
+		"panics": atomic.LoadInt64(&panics), "first_panic": fp, "control_file_reloads": ctrlReloads, "control_files_not_consumed": ctrlStuck,
+		"noop_partial_reloads_under_queries": noopReloads, "storm_error": stormErr, "idle_reload_error": idleErr, "stuck_storage_goroutines": stuck})
 	return 0
 }
 
